@@ -3508,6 +3508,8 @@ class LazyStackedTensorDict(TensorDictBase):
             raise ValueError(
                 f"dim {dim} is out of range for tensordict with shape {self.shape}."
             )
+        if isinstance(repeats, int) and repeats < 0:
+            raise RuntimeError("Repeats must be non-negative")
         if dim_corrected == self.stack_dim:
             # repeat_interleave copies the data: one fresh member per position (the
             # same object at several positions would make a write to one position
